@@ -318,3 +318,5 @@ _quick("C11", "C11_shared", "holder A (Count 5) with default / persist-immediate
 _quick("C07", "C07_relock", "a hold locked with E = 2 s (Rcount 2, persisted at once) and re-locked by its LockId one second later with E = 120 s; restart 0 / 2 / 6 s later: depth 2 and the re-lock's deadline restored", ["-witness", "3"])
 
 _quick("C07", "C07_ms", "a hold with the millisecond flag and E = 30000 ms, persisted at once; restart 0 / 6 / 20 s later: restored with its original deadline to within a second", ["-witness", "3"])
+
+_quick("C03", "C03_textpush", "0..6 text PUSH commands (each granted at once) on one connection, then LOCK and UNLOCK on another key: every PUSH answered once (a PUSH that blocks the connection is a violation), LOCK and UNLOCK answered with their own result and LockId, nothing left over", ["-witness", "3"], reach=["end", "pushed"], blocked="violation")
